@@ -137,9 +137,17 @@ CLAIMED = {
   'note': 'Trusted: Verus/Z3; uninterpreted HitPolicy::try_from / usize::from_str; rewrites R17-R19, R1m. Not decided: Canvas::plane, recognize_horizontal_table, builder::build, canvas::scan text loop, equivalence with the XML table; '
           'panic freedom is per function under preconditions (A-plane), not end to end.',
  },
+ 'C02': {
+  'text': 'Partial. Rust half (proof): Verus proves on the real dec.rs / number.rs bodies that every FEEL number operation is wired to the decimal library operation of its name with the operands in order, the decimal128 '
+          'half-even context, the rounding constants FLOOR / CEILING / DOWN where the property names them (constants checked against decContext.h on every run), results reduced, finiteness tested on the unreduced result of ln / sqrt / pow '
+          '(None exactly when it is not finite), equality and order by value, is_integer / odd / even by value, modulo from the exact remainder; abs / floor / ceiling stay finite. C half (BOUNDED, not a proof): the real operations '
+          'are compared with CPython decimal as decimal128 on a fixed operand grid (about 41 000 operations quick, 1.5 million thorough). Five known findings are replayed on every run (overflow to Infinity, exp to Infinity, decimal() to NaN, '
+          'modulo with a quotient of more than 34 digits, to_usize(-0)).',
+  'design_ref': 'DESIGN.md section 5 C02',
+  'note': 'Trusted: Verus/Z3; A-C (the C library computes the IEEE operation of each entry point: uninterpreted), A-IEEE, R9/R20/R21 rewrites. The arithmetic itself lives in C and is only covered by the bounded differential stand-in.',
+ },
 }
 NOT_APPLICABLE = {
- 'C02': TODO,
  'C04': 'the property is about dyn Fn closures stored in RwLock<HashMap> registries calling one another along the requirement graph; no first-order function carries it, Verus has no support for dyn Fn fields / std RwLock guards, Kani cannot bound the graph (DESIGN.md section 6)',
 
  'C07': 'deciding code is str/format!/C decNumber string conversion (scientific_to_plain, decQuadToString); Verus has no specs for these str APIs and Kani/CBMC did not finish a 3-character instance in 15 min (DESIGN.md section 6)',
